@@ -40,3 +40,29 @@ package keeper
 //@ define REQIDQ(r) = ufbytes("sha256", ufbytes("bytes_concat", ufbytes("enc<be64,Int>", r.Height mod 18446744073709551616), bytes(r.Consumer)))
 // every queue entry is stored under the id of its own request
 //@ define queueWF = forall q:Int :: forall i:Bytes :: has(rqueue, q, i) ==> i == REQIDQ(get(rqueue, q, i))
+
+// Oracle-seeded completion (C18): when the service module reports the outcome of the seed request, the pending request
+// disappears whether the call succeeded, failed or timed out, at most the random number of that one request is written,
+// and nothing is written for a failed call. (An output body that fails the schema check is the only outcome that keeps
+// the request pending: the service module validates outputs against the same schema before it reports them.)
+//@ func Keeper.HandlerResponse
+//@   property C18
+//@   requires (len(responseOutput) == 0 ==> err != nil) && time >= 1000000000
+//@   let req0 = get(oracleReqs, requestContextID)
+//@   modifies randoms, oracleReqs, bal, supply
+//@   ensures failed_removed: len(responseOutput) == 0 || err != nil ==> !has(oracleReqs, requestContextID) && randoms == old(randoms)
+//@   ensures unknown_removed: !old(has(oracleReqs, requestContextID)) ==> !has(oracleReqs, requestContextID) && randoms == old(randoms)
+//@   ensures fulfilled_removed: randoms != old(randoms) ==> !has(oracleReqs, requestContextID) && old(has(oracleReqs, requestContextID))
+//@   ensures one_number: forall r:Bytes :: r != REQID(req0) ==> has(randoms, r) == old(has(randoms, r)) && get(randoms, r) == old(get(randoms, r))
+//@   ensures others_pending: forall i:Bytes :: i != requestContextID ==> has(oracleReqs, i) == old(has(oracleReqs, i)) && get(oracleReqs, i) == old(get(oracleReqs, i))
+// (no-panic is not claimed here: the "invalid seed" branch logs err.Error() with a nil err when the seed decodes to the
+// wrong length; the schema check before it - 64 hex digits - makes that unreachable, which needs the JSON schema
+// semantics and is outside the model)
+//@ end
+
+// A state change of the seed request (paused for lack of funds, ...) ends the pending request
+//@ func Keeper.HandlerStateChanged
+//@   property C18
+//@   modifies oracleReqs, bal, supply
+//@   ensures removed_if_known: forall i:Bytes :: i != requestContextID ==> has(oracleReqs, i) == old(has(oracleReqs, i)) && get(oracleReqs, i) == old(get(oracleReqs, i))
+//@ end
